@@ -9,6 +9,7 @@ reference translation (vsds.tyterm), and one term gives one normal form in every
 from __future__ import annotations
 
 import itertools
+import re
 
 from .. import tyterm as tt
 from ..core import Check, Viol, drive, gated_features, generic_replay, rng_for
@@ -93,6 +94,11 @@ def depth2_terms():
     out.append(empty)
     out += [t for t in unary_constructors(empty) if t[0] not in ("generic",)]
     out += [("dict", ("str",), empty), ("union", [empty, ("int",)]), ("tuple", [empty, ("int",)]), ("union", [("int",)])]
+    # unions that hold None AND members which coincide (written twice, None twice, different Python types with one image)
+    for x in LEAVES_SMALL[:4]:
+        out += [("union", [x, x, ("None",)]), ("union", [("None",), x, ("None",)]), ("pipe", [("None",), x, ("None",)]), ("union", [x, ("None",), x]),
+                ("opt", ("union", [("list", x), ("Sequence", x)])), ("union", [("Mapping", ("str",), x), ("dict", ("str",), x), ("None",)]),
+                ("list", ("union", [x, ("None",), x])), ("pipe", [("opt", x), ("None",)])]
     # None as an element: of tuples (first, last, middle, only, twice), of collections and of callables
     none = ("None",)
     for x in LEAVES_SMALL[:3]:
@@ -267,9 +273,29 @@ def expected_results(term):
     return [tt.ref_nf(term)]
 
 
+def written_union_flaws(t) -> list[str]:
+    """'unions to union with duplicates removed': a union that is WRITTEN in the stub has no member twice (by meaning), at every
+    nesting depth.  (Whether a nullable type is written T? or union<T, Nothing?> is the tool's choice - it uses both - and the same
+    by meaning; what is required of it is one spelling per meaning, see per_meaning.)"""
+    out = []
+    if t is None:
+        return out
+    if t.kind == "union":
+        nfs = [tt.stub_nf(a) for a in t.args]
+        if len({repr(n) for n in nfs}) < len(nfs):
+            out.append("member-twice")
+    for a in getattr(t, "args", None) or []:
+        out += written_union_flaws(a)
+    if t.kind == "callable":
+        for p in [*t.params, *t.results]:
+            out += written_union_flaws(p.type)
+    return out
+
+
 def make_judge(chk: Check):
     per_term: dict = {}
     per_text: dict = {}
+    per_meaning: dict = {}
 
     def judge(case: Case, rec: dict, probe=None) -> list[Viol]:
         viols: list[Viol] = []
@@ -314,9 +340,17 @@ def make_judge(chk: Check):
                 exp1 = tt.ref_nf(term)
                 if got_nfs != exp1:
                     viols.append(Viol("type-mismatch", where, {"annotation": g["src"], "expected": tt.show_nf(exp1), "stub": st.render() if st else None, "sig": sigkey}))
+            shown = [r.type for r in d.results] if pos == "result" else [st]
+            for x in shown:
+                for flaw in sorted(set(written_union_flaws(x))):
+                    viols.append(Viol("written-union:" + flaw, where, {"annotation": g["src"], "stub": x.render() if x else None, "sig": sigkey}))
             chk.case_ok(f"{pos}:{sigkey}", ident=(pos, g["src"], bool(case.opts)))
             if got_nfs is not None:
                 per_term.setdefault(g["src"], {})[pos if pos != "inherited" else f"inherited:{g['name'][:4]}"] = got_nfs
+            if pos in ("param", "ctor") and st is not None and got_nfs is not None:
+                # (the values of a literal type keep the order in which the annotation lists them: not a matter of spelling)
+                spelled = re.sub(r"literal<([^<>]*)>", lambda m: "literal<" + ", ".join(sorted(m.group(1).split(", "))) + ">", st.render())
+                per_meaning.setdefault((repr(got_nfs), bool(case.opts)), {}).setdefault(spelled, g["src"])
             if pos in ("param", "ctor", "param-among-others", "inherited") and st is not None:
                 # the written form too: one annotation, one text, wherever (and however often) it is rendered
                 per_text.setdefault((g["src"], bool(case.opts)), {})[pos if pos != "inherited" else f"inherited:{g['name'][:4]}"] = st.render()
@@ -326,6 +360,7 @@ def make_judge(chk: Check):
 
     judge.per_term = per_term
     judge.per_text = per_text
+    judge.per_meaning = per_meaning
     return judge
 
 
@@ -344,6 +379,14 @@ def main(tier: str, seed: int) -> int:
     for (src, _nc), d in judge.per_text.items():
         if len(set(d.values())) > 1:
             chk.violation(Viol("position-dependent-text", "parameter-positions", {"annotation": src, "texts": d}))
+    # one meaning, one spelling: annotations with the same normal form (Optional[int] / Union[int, int, None] / int | None)
+    # are written with the same text
+    nmean = 0
+    for (_nf, _nc), texts in judge.per_meaning.items():
+        if len(texts) > 1:
+            chk.violation(Viol("one-meaning-several-spellings", "parameter-positions", {"spellings": {t: a for t, a in sorted(texts.items())[:6]}}))
+        nmean += 1
+    chk.extra["meanings_compared_by_spelling"] = nmean
     chk.extra["terms_compared_across_positions"] = npos
     chk.extra["exhaustive_parts"] = f"{cases[0].meta['n_exhaustive_terms']} terms: all leaves, every unary constructor over every leaf, every binary constructor over the small leaf set squared"
     chk.extra["gated_features"] = sorted(gated_features())
